@@ -89,6 +89,13 @@ def gen_history(rng, kind):
                 [BRANCHES[0], 1, 'push', 'in_progress', None]]})
             ops.append({'op': 'overlap', 'i': 0, 'during': [
                 make('SUCCESSFUL'), {'op': 'poll', 'c': c, 'key': k}]})
+        elif k != 'github_actions' and rng.random() < 0.4:
+            # the build first fails (Bert-E is told), a re-run succeeds
+            # (Bert-E is told by webhook only, nobody polls meanwhile)
+            ops.append(make(rng.choice(['FAILED', 'FAILED', 'INPROGRESS'])))
+            ops.append({'op': 'deliver', 'i': 0})
+            ops.append(make('SUCCESSFUL'))
+            ops.append({'op': 'deliver', 'i': 0})
         else:
             ops.append(make('SUCCESSFUL'))
             ops.append(rng.choice([{'op': 'poll', 'c': c, 'key': k},
